@@ -101,3 +101,110 @@ def mutate_bytes(rng, b, tags, gentle=False):
         i = rng.randrange(len(b) // 4 + 1) * 4
         b[i:i] = bytes(rng.getrandbits(8) for _ in range(4))
     return bytes(b)
+
+
+# --------------------------------------------------------------------------- structure-aware non-canonical TL1 encodings
+class PyEnc:
+    """A Python TL1 writer over the IR used ONLY as an input generator (never as an oracle): it can
+    emit one deliberate non-canonical spot -- a non-minimal string length form, non-zero string
+    padding, a foreign Bool tag, an unknown union tag -- at the n-th opportunity."""
+
+    def __init__(self, ins, tweak=None, at=0):
+        self.ins, self.tweak, self.at = ins, tweak, at
+        self.count = {"str": 0, "bool": 0, "union": 0}
+        self.applied = False
+
+    def hit(self, kind):
+        i = self.count[kind]
+        self.count[kind] += 1
+        if self.tweak and self.tweak.startswith(kind) and i == self.at:
+            self.applied = True
+            return True
+        return False
+
+    def string(self, s):
+        l = len(s)
+        if self.hit("str"):
+            if self.tweak == "str-medium" and l <= 253:
+                b = bytes([254]) + l.to_bytes(3, "little") + s
+                return b + b"\0" * (-len(b) % 4)
+            if self.tweak == "str-huge" and l < (1 << 24):
+                b = bytes([255]) + l.to_bytes(7, "little") + s
+                return b + b"\0" * (-len(b) % 4)
+            if self.tweak == "str-pad":
+                b = (bytes([l]) + s) if l <= 253 else (bytes([254]) + l.to_bytes(3, "little") + s)
+                pad = -len(b) % 4
+                if pad:
+                    return b + bytes([1] + [0] * (pad - 1))
+            self.applied = False
+        b = (bytes([l]) + s) if l <= 253 else ((bytes([254]) + l.to_bytes(3, "little") + s) if l < (1 << 24) else (bytes([255]) + l.to_bytes(7, "little") + s))
+        return b + b"\0" * (-len(b) % 4)
+
+    def evalarg(self, a, ps, fs):
+        if a["kind"] == "num":
+            return a["value"]
+        if a["kind"] == "param":
+            return ps[a["value"]] if a["value"] < len(ps) else 0
+        i = a["value"]
+        return fs[i][1] if i < len(fs) and fs[i] is not None and fs[i][0] == "n" else 0
+
+    def fields(self, x, ps, fs):
+        out = b""
+        for f, v in zip(x["fields"], fs):
+            if v is None:
+                continue
+            out += self.enc(f["type"], f["bare"], [self.evalarg(a, ps, fs) for a in f.get("natArgs") or []], v)
+        return out
+
+    def enc(self, tid, bare, ps, v):
+        x = self.ins[tid]
+        k = x["kind"]
+        if k == "prim":
+            p = PRIM_MAP.get(x["name"])
+            if p in ("nat", "int", "float"):
+                return v[1].to_bytes(4, "little")
+            if p in ("long", "double"):
+                return v[1].to_bytes(8, "little")
+            if p == "string":
+                return self.string(v[1])
+            if p == "bool":
+                t = x.get("trueTag", 0) if v[1] else x.get("falseTag", 0)
+                if self.hit("bool"):
+                    t = 0x3fedd339
+                return t.to_bytes(4, "little")
+            raise ValueError("prim")
+        if k == "struct":
+            body = self.fields(x, ps, v[1])
+            return body if bare else x["tag"].to_bytes(4, "little") + body
+        if k == "union":
+            vt = self.ins[x["variants"][v[1]]]
+            tag = vt["tag"]
+            if self.hit("union"):
+                tag ^= 0x00010000
+            return tag.to_bytes(4, "little") + self.fields(vt, ps, v[2])
+        if k in ("array", "dict"):
+            ef = x["elem"]
+            eargs = [self.evalarg(a, ps, []) for a in ef.get("natArgs") or []]
+            body = b"".join(self.enc(ef["type"], ef["bare"], eargs, e) for e in v[1])
+            if k == "dict" or not x.get("isTuple"):
+                return len(v[1]).to_bytes(4, "little") + body
+            return body
+        raise ValueError(k)
+
+
+def noncanonical_encodings(ins, tid, boxed, v, rng, n=3):
+    """up to n (tweak name, bytes) pairs: valid-looking encodings of v with one non-canonical spot"""
+    out = []
+    for tweak in rng.sample(["str-medium", "str-huge", "str-pad", "bool", "union"], 5):
+        for at in (0, 1, 3):
+            e = PyEnc(ins, tweak, at)
+            try:
+                b = e.enc(tid, not boxed, [], v)
+            except Exception:   # generator only: anything odd is simply skipped
+                break
+            if e.applied:
+                out.append((tweak, b))
+                break
+        if len(out) >= n:
+            break
+    return out
